@@ -238,6 +238,7 @@ def run(ctx) -> None:
   r3_xla(ctx)
   r3_naive(ctx)
   r4_best_trials(ctx)
+  r4_safety_alignment(ctx)
   r5_no_difference_compare(ctx)
   r6_client_infeasible_flag(ctx)
   r7_shard_counts(ctx)
@@ -974,6 +975,47 @@ def r3_naive(ctx) -> None:
     return None
   p3 = parse_pred(e2, role2, {})
   _report(ctx, 'Naive.is_pareto_optimal survivor test', expr, gm, p3, 'optimal')
+
+
+def r4_safety_alignment(ctx) -> None:
+  """Per-trial flags are paired with the trials they were computed for: both operands of a zip() in the safety checker
+  range over the same (unfiltered, or identically filtered) list."""
+  mod = ctx.index.need_module('vizier._src.pyvizier.multimetric.safety')
+  n = 0
+  for ci in mod.classes.values():
+    for m in ci.methods.values():
+      asg = {}
+      for x in ast.walk(m.node):
+        if isinstance(x, ast.Assign) and len(x.targets) == 1 and isinstance(x.targets[0], ast.Name):
+          asg.setdefault(x.targets[0].id, []).append(x.value)
+
+      def sources(e, depth=0, seen=None):
+        """names of filtered lists (comprehension with `if`, filter()) that `e` is computed from"""
+        seen = seen if seen is not None else set()
+        out = set()
+        if depth > 5:
+          return out
+        for y in ast.walk(e):
+          if isinstance(y, ast.Name) and y.id in asg and y.id not in seen:
+            seen.add(y.id)
+            for v in asg[y.id]:
+              if (isinstance(v, (ast.ListComp, ast.GeneratorExp)) and any(g_.ifs for g_ in v.generators)) or \
+                  (isinstance(v, ast.Call) and dotted(v.func) in ('filter', 'itertools.compress', 'list') and v.args and isinstance(v.args[0], ast.Call)
+                   and dotted(v.args[0].func) == 'filter'):
+                out.add(y.id)
+              out |= sources(v, depth + 1, seen)
+        return out
+      for c in flow.calls_in(m.node):
+        if dotted(c.func) == 'zip' and len(c.args) >= 2:
+          n += 1
+          srcs = [frozenset(sources(a)) for a in c.args]
+          ctx.check(len(set(srcs)) == 1, 'R4', f'{ci.name}.{m.name}: `{unparse(c, 40)}` pairs like with like', c,
+                    'all operands range over the same list',
+                    f'`{unparse(c, 50)}`: the operands are computed from different selections of the trials ({[sorted(s_) for s_ in srcs]}): after the first '
+                    'trial that was filtered out every flag is applied to the next trial - a safe, non-dominated trial is warped to the worst value '
+                    'and an unsafe one is reported as best', construct=f'{ci.name}.{m.name}:misaligned-zip', func=m.qualname)
+  if n < 1:
+    raise AnalysisError('SafetyChecker: no zip of trials with their flags found')
 
 
 # ----------------------------------------------------------------------- R4
